@@ -100,19 +100,27 @@ def main():
             continue
         seen.add(key)
         stream, label, t = cases[i]
+        if r[:1] == [89]:
+            # the compiled header agrees with the spec but not with the generator model the C08 theorem is
+            # about: the tie of the theorem to the code is broken, the property itself was not seen to fail
+            chk.violation("corr-%d" % i, {"kind": "correspondence broken: PcModel.pc_raw_layout (theorem C08_raw_member_offsets) no longer "
+                                                  "describes the generated header although the header still matches the wire layout",
+                                          "label": label, "schema_text": S.to_prophy(t), "schema": t, "result": r[:10]},
+                          note="no-failing-input-found")
+            continue
         chk.violation("raw-%d" % i, {"kind": "a member of the generated raw struct is not at its wire offset, or sizeof of a fixed type is not its wire size "
                                              "(result = [88; sizeof ok; wire size; expected (part, offset, value offset)...]; 87: a member is missing in the header)",
                                      "label": label, "schema_text": S.to_prophy(t), "schema": t, "result": r[:40],
                                      "observed": out[i]["ops"][0]["structs"]})
     chk.coverage["rule"] = ("schema streams as in C01 (raw generator accepts shared counters too). For every struct, part and union of "
                             "every schema the compiled header's __builtin_offsetof/sizeof table (g++ 12, x86-64) is compared inside Coq "
-                            "with the spec's member_offsets (offsets relative to the start of the struct or partN; optional flag and "
+                            "with the spec's member_offsets and with the generator model pc_raw_layout (offsets relative to the start of the struct or partN; optional flag and "
                             "value; counters; first elements; discriminator and arms) and, for fixed types, sizeof with the wire size.")
     if entries:
         i, d, tr, sz = entries[len(entries) // 2]
         chk.sample({"declaration": S.decl_text(d), "observed_part_offset_value": tr, "sizeof": sz})
     chk.assumptions += ["GCC x86-64 ABI for __attribute__((packed, aligned(n))) is observed, not modelled"]
-    return chk.finish(level="exploration")
+    return chk.finish(level="proof")
 
 
 if __name__ == "__main__":
